@@ -351,5 +351,15 @@ _ADD2 = {
     'C17': 'The direction of a chain text is a function of the structure (judged apart from the recorded aromatic-case finding).',
     'C18': 'Element(delta_isotope=d), d in -1, 0, +1, gives reference + d and its tabulated mass.',
 }
-for _k, _v in list(_ADD.items()) + list(_ADD2.items()):
+_ADD3 = {
+    'C01': 'Strings written with 7 format options are required to be numbering independent as well.',
+    'C09': 'Targets are also built with non-ascending insertion order (storage order differs from ascending numbers), searched with and without scopes.',
+    'C11': 'Two-session files are written through str and pathlib targets.',
+    'C14': 'Every acid of the salt-stripping table x three bases is in the cache-coherence stage.',
+    'C15': 'The condensed-graph string is also compared under two sparse consistent renumberings.',
+    'C16': 'Exhaustive mode is also driven with a template that gives two product molecules per site (ester hydrolysis) incl. spectators; unnamed labelled centres at ring-closing positions are among the Transformer inputs.',
+    'C17': 'linear_hash_smiles / linear_smiles_hash are compared under 5 (radius, cap) settings, positional and keyword.',
+    'C20': 'Hetero-atom stereo marks (S, P, N+) next to carbon centres: RDKit -> chython must equal the library reading of the same text for every RDKit atom order.',
+}
+for _k, _v in list(_ADD.items()) + list(_ADD2.items()) + list(_ADD3.items()):
     CHECKS[_k]['text'] += ' ' + _v
